@@ -87,10 +87,16 @@ def make_writer(cfg, dst):
     if cfg['writer'] == 'file':
         from pysmi.writer import FileWriter
         import pysmi.writer.localfile as wm
-        return FileWriter(dst).setOptions(suffix=cfg['suffix']), wm
+        w = FileWriter(dst)
+        if not (cfg['suffix'] == '' and cfg.get('defaults')):
+            w.setOptions(suffix=cfg['suffix'])
+        return w, wm
     from pysmi.writer import PyFileWriter
     import pysmi.writer.pyfile as wm
-    return PyFileWriter(dst).setOptions(pyCompile=cfg['pyCompile']), wm
+    w = PyFileWriter(dst)
+    if not (cfg['pyCompile'] and cfg.get('defaults')):
+        w.setOptions(pyCompile=cfg['pyCompile'])    # else: the writer as constructed (byte-compiles by default)
+    return w, wm
 
 
 def judge(cfg, dst, old, data, comments, outcome, exc, fault, site, V, cell):
@@ -330,6 +336,7 @@ def run_case(idx, rng, tier, res):
     cfg = {
         'writer': rng.choice(['file', 'py']),
         'pyCompile': rng.random() < 0.6,
+        'defaults': rng.random() < 0.4,
         'existing': rng.random() < 0.5,
         'dir_exists': rng.random() < 0.75,
         'size': rng.choice(SIZES + ([1 << 20] if tier == 'thorough' and rng.random() < 0.1 else [])),
